@@ -83,7 +83,8 @@ def mutate_lines(r, lines, k=None):
                         (3, 'word'), (2, 'drop_line'), (2, 'add_line'),
                         (2, 'swap_lines'), (2, 'trailing_space'),
                         (1, 'leading_space'), (1, 'case'), (1, 'version'),
-                        (1, 'comment_text'), (1, 'one_char')])
+                        (1, 'comment_text'), (1, 'one_char'),
+                        (2, 'swap_and_change'), (1.5, 'space_and_change')])
         idxs = [i for i, l in enumerate(lines) if l]
         if m in ('digits_same_width', 'digits_other_width'):
             import re
@@ -120,6 +121,21 @@ def mutate_lines(r, lines, k=None):
                 continue
             i, j = r.sample(range(len(lines)), 2)
             lines[i], lines[j] = lines[j], lines[i]
+        elif m == 'swap_and_change':
+            # two lines swapped near the top and a real change further down
+            if len(lines) < 3 or len(idxs) < 1:
+                continue
+            lines[0], lines[1] = lines[1], lines[0]
+            i = r.pick([x for x in range(2, len(lines))])
+            lines[i] = lines[i] + ' ' + r.pick(WORDS)
+        elif m == 'space_and_change':
+            # one line differs only in surrounding blanks, another for real
+            if len(idxs) < 2:
+                continue
+            i, j = r.sample(idxs, 2)
+            lines[i] = r.pick(['', ' ', '\t']) + lines[i] + r.pick(
+                [' ', '  ', '\t'])
+            lines[j] = lines[j] + ' ' + r.pick(WORDS)
         elif m == 'trailing_space':
             if not idxs:
                 continue
